@@ -272,7 +272,7 @@ class C11(Prop):
             'every listing is compared with the recorded messages of the selection filtered by an independently parsed matcher (or the current '
             'filter), last N for caps >= 1, matched+didn\'t+not checked = recorded, matched = lines shown, None-of-K form, and the '
             'filter/breakpoint/selection/record sampled before and after. non-trivial = session with a non-empty listing smaller than the '
-            'record and a binding cap; distinct by SHA-1 of the case. long-listings: the same comparisons over sessions of 800..12 000 messages expanded from a drawn template, caps around 1000 and up to 6000, labels deep into the incarnation letters, one listing mid-stream.')
+            'record and a binding cap; distinct by SHA-1 of the case. long-listings: the same comparisons over sessions of 800..12 000 messages expanded from a drawn template, caps around 1000 and up to 6000, labels deep into the incarnation letters, one listing mid-stream. Listings whose matcher was rendered from a syntax tree (depth <= 2) are also compared with the documented meaning where that is settled.')
     assumptions = ['matcher meaning is C05\'s business', 'cap 0 and negative caps are outside the statement (only sanity-checked)']
     stages = [Listings(), LongListings()]
 
